@@ -133,9 +133,13 @@ func (dm *DMap) deleteKey(key string) error {
 
 	// Check the HKey before trying to delete it.
 	if !f.storage.Check(hkey) {
-		// DeleteMisses is the number of deletions reqs for missing keys
-		DeleteMisses.Increase(1)
-		return nil
+		// This member may have taken over the partition recently. Then the key may
+		// still live on a previous owner, where Get and Scan find it.
+		if len(dm.s.primary.PartitionOwnersByHKey(hkey)) < 2 {
+			// DeleteMisses is the number of deletions reqs for missing keys
+			DeleteMisses.Increase(1)
+			return nil
+		}
 	}
 
 	return dm.deleteOnCluster(hkey, key, f)
